@@ -665,11 +665,20 @@ C02.manifest = {
             "WrongMethod/NodeNotFound/EdgeNotFound exactly as specified; both are symmetric in their arguments on undirected "
             "graphs for any relation between name order and insertion order; get_out/in_edges_for_node and get_edges_for_node "
             "are permutations of the edges of get_all_edges leaving / entering / touching the node (directed self-loop once). "
-            "The remaining queries (node-set variants, neighbour/successor/predecessor lists, BFS) are tied to the model by the "
-            "correspondence and recomputed from the public node/edge lists by an independent oracle on every generated history.",
-    "note": "Axioms: none. Partial: the successor/predecessor/neighbour node queries, the *_for_nodes variants and BFS have a "
-            "faithful model and per-case validation but no unbounded theorem yet (their index clauses wf_sm/wf_pm/wf_su/wf_pr ARE "
-            "proved invariant). Defect F3 (directed self-loop listed twice) repaired by a fix: commit.",
+            "get_successor_nodes / get_predecessor_nodes / get_neighbor_nodes succeed on every node and list, duplicate-free, "
+            "exactly the nodes joined by a stored group; the adjacency query of the searches (get_successors_or_neighbors) "
+            "lists exactly the nodes one step away along an edge of get_all_edges (C02_successors_or_neighbors); "
+            "breadth_first_search(x) from any node RETURNS, x first, no node twice, exactly the nodes reachable from x along "
+            "the edges of get_all_edges (against them too on an undirected graph), and from an absent name the unwrap fails "
+            "(C02_breadth_first_search, C02_breadth_first_search_absent). "
+            "The node-set variants (has_nodes, get_edges_for_nodes, get_in/out_edges_for_nodes) equal the corresponding "
+            "filters of get_all_edges with NodeNotFound / WrongMethod as specified (C02_has_nodes, C02_*_for_nodes); the "
+            "name<->position lookups are mutually inverse views of the node list (C02_name_position) and the name-keyed "
+            "maps handed out by get_successors_map / get_predecessors_map list, duplicate-free, exactly the names joined by "
+            "a stored group (C02_successors_map, C02_predecessors_map). All of it is also tied to the code by the "
+            "correspondence and recomputed from the public node/edge lists by an independent oracle on every history.",
+    "note": "Axioms: none. BFS is still ALSO compared per case (model vs code, and the oracle's own reachability). "
+            "Defect F3 (directed self-loop listed twice) repaired by a fix: commit.",
     "technique": "Coq proof: queries = functions of the abstract graph under the WF invariant + correspondence",
 }
 
@@ -692,8 +701,9 @@ C09.manifest = {
             "unweighted), and the matrix is symmetric when undirected (C09_matrix, C09_matrix_symmetric; needs the "
             "WF clause wf_emkeys: the edge store has duplicate-free keys, proved for every reachable state).",
     "note": "Axioms: none. Not proved: float rounding of the weighted sums (modelled exactly; the implementation sums "
-            "sorted so that the order cannot matter, compared at 1e-9); that each matrix triplet is emitted exactly once "
-            "(compared per case). Defects F2, F3, F4 repaired by fix: commits.",
+            "sorted so that the order cannot matter, compared at 1e-9). Each matrix position is emitted at most once "
+            "(C09_matrix_positions_once), so summing repeated positions in the CSR conversion cannot change a value. "
+            "Defects F2, F3, F4 repaired by fix: commits.",
     "technique": "Coq proof: counting lemmas over the edge multiset under WF + correspondence + identity oracle",
 }
 
